@@ -29,7 +29,8 @@ RULE = ('one trash-put of 1-3 entries per case with names over all byte values 1
 ASSUMPTIONS = ['names that are not valid UTF-8 are generated, but trash-put refuses them (see C16), so no .trashinfo exists to judge for them',
                'the name dimension is ordinary seeded input generation; the simulator adds clock, layout and real I/O']
 PROBES = ['path-value-over-8k', 'infos-checked', 'relative-path-info', 'absolute-path-info', 'name-needs-escaping', 'newline-in-name', 'percent-in-name',
-          'long-name', 'deep-path', 'year-below-1000', 'year-above-3000', 'invalid-utf8-refused', 'rm-exact-path-removed', 'restore-listed']
+          'long-name', 'deep-path', 'year-below-1000', 'year-above-3000', 'invalid-utf8-refused', 'rm-exact-path-removed', 'restore-listed',
+          'first-candidate-fails', 'trashed-in-a-later-candidate-after-a-fault']
 TECHNIQUE = 'deterministic simulation with simulated clock; byte-level conformance + round trip of each written .trashinfo through an independent spec decoder and the three readers'
 LEVEL_TEXT = 'seeded exploration of names x depth x time x trash-dir kind; invariant on every .trashinfo written by the real trash-put'
 LEVEL_NOTE = 'trusted: model/trashinfo.py (RFC 2396 character set, percent decoder, date grammar)'
@@ -103,9 +104,28 @@ def gen(rng):
     yr = rng.choice([2024, 2024, 2024, 1999, 2038, 1, 2, 99, 100, 999, 1000, 1969, 1970, 9999, 9998, 2100, 1582])
     start = '%04d-%02d-%02dT%02d:%02d:%02d.%06d' % (yr, rng.randint(1, 12), rng.randint(1, 28), rng.randint(0, 23),
                                                      rng.randint(0, 59), rng.randint(0, 59), rng.choice([0, 1, 999999, rng.randrange(10**6)]))
+    faults = []
+    opts = []
+    fr = rng.random()
+    if fr < 0.12:
+        # the first candidate trash directory fails while the .trashinfo is written or the file is moved in, so the entry
+        # goes to the NEXT candidate, which writes the other kind of Path (relative <-> absolute): the info must be right for
+        # the directory it ends up in
+        import errno as E
+        err = rng.choice([E.ENOSPC, E.EDQUOT, E.EIO, E.EACCES])
+        op = rng.choice(['open_w', 'open_w', 'rename', 'write'])
+        if fr < 0.07 and L['vols']:
+            for v in L['vols']:
+                for t in (v + '/.Trash-%d' % uid, v + '/.Trash/%d' % uid):
+                    faults.append({'kind': 'cond', 'what': 'op_errno', 'op': op, 'dir': t, 'errno': err})
+            opts = ['--home-fallback']
+            env['TRASH_ENABLE_HOME_FALLBACK'] = '1'
+        else:
+            faults.append({'kind': 'cond', 'what': 'op_errno', 'op': op, 'dir': G.home_trash_of(env), 'errno': err})
     return {
+        'faults': faults,
         'world': {'mounts': L['mounts'], 'steps': steps},
-        'procs': [{'argv': ['trash-put', '--'] + args, 'env': env, 'cwd': rng.choice(['/', home]), 'uid': uid}],
+        'procs': [{'argv': ['trash-put'] + opts + ['--'] + args, 'env': env, 'cwd': rng.choice(['/', home]), 'uid': uid}],
         'dirsalt': rng.randrange(1 << 30),
         'clock': {'start': start, 'tick_us': rng.choice([137, 400000, 0]), 'utcoffset_s': rng.choice([0, 3600, -18000, 19800, 34200, 50400, -43200])},
     }
@@ -140,9 +160,13 @@ def check(sim, case, st):
     for o in outs:
         if o.named.kind == 'entry' and 'badutf8' in byte_classes(o.named.loc) and o.state == 'untouched':
             st.probes['invalid-utf8-refused'] += 1
+    if case.get('faults'):
+        st.probes['first-candidate-fails'] += 1
     if not trashed:
         st.probes['premise-not-met:nothing-trashed'] += 1
         return []
+    if case.get('faults') and any(str(ev[6]).startswith('FAULT:') for ev in r.trace):
+        st.probes['trashed-in-a-later-candidate-after-a-fault'] += 1
     lo = min(r.clock).replace(microsecond=0) if r.clock else None
     hi = max(r.clock).replace(microsecond=0) if r.clock else None
     rl = OR.run_list(sim, env, uid)
